@@ -182,3 +182,14 @@ CHECKS["C19"] = dict(
         "observed dial gaps: lower bound 25 ms is sound; monotonicity within 25% tolerance; upper bound 1 s + 1.5 s slack",
     ],
 )
+
+CHECKS["C15"] = dict(
+    parts=[dict(pkg="lang", run="^TestC15_")], level="exploration",
+    quick=dict(shards=4, checks=6000, timeout=900),
+    thorough=dict(shards=16, checks=150000, timeout=3000),
+    assumptions=[
+        "strings are generated without backslashes or quotes (the parser records string literals by trimming the outer quotes only)",
+        "an empty import/options section and an empty output list '()' leave no trace in the syntax tree and are not required to",
+        "integer literals are decimal per the language (non-decimal forms must be rejected, which oracle 2 checks)",
+    ],
+)
